@@ -34,6 +34,9 @@ type c16Scenario struct {
 	Monitors   []monSpec `json:"monitors"`
 	Steps      []string  `json:"steps"` // monitor:<i> own foreign-insert foreign-delete foreign-update echo
 	Inactivity bool      `json:"inactivityProbe,omitempty"`
+	// the client is given WithInactivityCheck and then WithReconnect (same timeout and
+	// back-off): both say "reconnect", the second one says nothing about the probe
+	ThenReconnectOption bool `json:"thenReconnectOption,omitempty"`
 }
 
 type c16Outcome struct {
@@ -176,6 +179,9 @@ func runC16Unguarded(w *kit.World, sc c16Scenario, faults []kit.Fault) c16Outcom
 	opts := []client.Option{client.WithReconnect(2*time.Second, backoff.NewConstantBackOff(3*time.Millisecond))}
 	if sc.Inactivity {
 		opts = []client.Option{client.WithInactivityCheck(60*time.Millisecond, 2*time.Second, backoff.NewConstantBackOff(3*time.Millisecond))}
+		if sc.ThenReconnectOption {
+			opts = append(opts, client.WithReconnect(2*time.Second, backoff.NewConstantBackOff(3*time.Millisecond)))
+		}
 	}
 	c, err := kit.NewClient(w, px.Endpoint(), opts...)
 	if err != nil {
@@ -535,6 +541,7 @@ func TestC16(t *testing.T) {
 			faults = append(faults, kit.Fault{OnConn: 1, Dir: rapid.IntRange(0, 1).Draw(t, "dir2"), K: rapid.IntRange(1, 12).Draw(t, "k2"), Mode: rapid.SampledFrom(modes).Draw(t, "mode2")})
 		case 1:
 			sc.Inactivity = true
+			sc.ThenReconnectOption = rapid.Bool().Draw(t, "thenreconnectoption")
 			faults[0].Mode = "stall"
 		}
 		t0 := time.Now()
